@@ -220,3 +220,37 @@ func (r *randomChooser) choose(step int, parked []int) int {
 
 func installHook(s *Sched) { column.VerifHook.Store(func(p string, c uint32) { s.Yield(p, c) }) }
 func removeHook()          { column.VerifHook.Store(func(string, uint32) {}) }
+
+// pctChooser: probabilistic concurrency testing - random thread priorities, the highest-priority
+// parked thread runs; at d randomly chosen steps the running thread drops below everyone else
+type pctChooser struct {
+	rng     *Rng
+	prio    map[int]int
+	changes map[int]bool
+	low     int
+}
+
+func newPCT(rng *Rng, depth, horizon int) *pctChooser {
+	p := &pctChooser{rng: rng, prio: map[int]int{}, changes: map[int]bool{}, low: -1}
+	for i := 0; i < depth; i++ {
+		p.changes[rng.Intn(horizon)] = true
+	}
+	return p
+}
+
+func (p *pctChooser) choose(step int, parked []int) int {
+	best, bi := -1 << 30, 0
+	for i, t := range parked {
+		if _, ok := p.prio[t]; !ok {
+			p.prio[t] = 1000 + p.rng.Intn(1000)
+		}
+		if p.prio[t] > best {
+			best, bi = p.prio[t], i
+		}
+	}
+	if p.changes[step] {
+		p.prio[parked[bi]] = p.low
+		p.low--
+	}
+	return bi
+}
